@@ -224,5 +224,9 @@ func (iter *UnsavedFastIterator) Close() error {
 
 // Error implements store.Iterator
 func (iter *UnsavedFastIterator) Error() error {
-	return iter.err
+	if iter.err != nil {
+		return iter.err
+	}
+	// a failure of the underlying fast iterator ends the iteration early
+	return iter.fastIterator.Error()
 }
